@@ -87,6 +87,13 @@ func (s *solver) preamble() {
 	}
 }
 
+// setTimeout changes the per-command timeout of the running process (z3 only).
+func (s *solver) setTimeout(ms int) {
+	if strings.Contains(s.bin[0], "z3") {
+		s.send(fmt.Sprintf("(set-option :timeout %d)", ms))
+	}
+}
+
 func (s *solver) resetState() {
 	s.inPath = false
 	s.defined = make(map[int]bool)
